@@ -533,7 +533,14 @@ def gen_chain_case(rng, tbl):
     if rng.random() < 0.3 and len(pool) > 3:
         # re-route: an earlier element now drives a new flywheel, cutting the tail off the chain
         i = add({'type': 'fly'})
-        decls.append(['joint', rng.randrange(1, len(pool) - 1), i])
+        src = rng.randrange(1, len(pool) - 1)
+        decls.append(['joint', src, i])
+        if rng.random() < 0.6:
+            # ... and back: the relation that was cut off is declared again, word for word (the element drives its
+            # former follower again; the detour element keeps a stale back-link only)
+            back = [d for d in decls[:-1] if d[1] == src]
+            if back:
+                decls.append(list(back[-1]))
     return {'t': 'rel', 'pool': pool, 'decls': decls}
 
 
